@@ -151,7 +151,7 @@ def selftest(E):
 
 def harnesses(tier):
     q = tier == "quick"
-    T = 600 if q else 2400
+    T = 600 if q else 900
     hs = [H("reference_vs_pyzx", selftest, {}, [], covers=["validated"],
             engine="numeric cross-validation of the reference spiders against "
             "pyzx.tensorfy", bounds="Z/X spiders of arity (1,1),(1,2),(2,1),"
